@@ -43,6 +43,9 @@ def generate(rng, tier, index):
         ks = sorted({0, T - 1, int(rng.integers(1, T - 1)), int(rng.integers(1, T - 1))})
         ns = sorted({1, T, int(rng.integers(1, T + 1))})
     spec["ops"] = [{"op": "none"}] + [{"op": "checkpointed", "n": n} for n in ns] + [{"op": "reversible", "k": k} for k in ks] + [{"op": "reversible_too_many", "k": T}]
+    # the same forward pass taken *under differentiation* (jax.vjp runs the custom-VJP forward rule / the checkpointed loop's
+    # differentiable path, which is what an optimisation loop executes): its primal outputs must equal the plain run too
+    spec["ops"] += [{"op": "reversible_under_vjp", "k": int(ks[int(rng.integers(0, len(ks)))])}, {"op": "checkpointed_under_vjp", "n": int(ns[int(rng.integers(0, len(ns)))])}]
     return spec
 
 
@@ -103,6 +106,7 @@ def execute(spec):
     nontrivial = bool(np.max(np.abs(ref["f/E"])) > 0)
     for op in spec["ops"]:
         k = op["op"]
+        cfg = cfg_rev
         if k == "none":
             cfg = cfg_rev.aset("gradient_config", None)
         elif k == "checkpointed":
@@ -119,7 +123,16 @@ def execute(spec):
                     raise
                 stats["fault_rejected_strategy"] = stats.get("fault_rejected_strategy", 0) + 1
             continue
-        t, arr = fdtdx.run_fdtd(scn.arrays, scn.objects, cfg, scn.key, show_progress=False)
+        if k.endswith("_under_vjp"):
+            gc = fdtdx.GradientConfig(method="checkpointed", num_checkpoints=int(op["n"])) if k.startswith("checkpointed") else cfg_rev.gradient_config.aset("num_checkpoints_reversible", int(op["k"]))
+            cfg = cfg_rev.aset("gradient_config", gc)
+
+            def run(inv_eps, cfg=cfg):
+                return fdtdx.run_fdtd(scn.arrays.aset("inv_permittivities", inv_eps), scn.objects, cfg, scn.key, show_progress=False)
+
+            (t, arr), _vjp = jax.vjp(run, scn.arrays.inv_permittivities)
+        else:
+            t, arr = fdtdx.run_fdtd(scn.arrays, scn.objects, cfg, scn.key, show_progress=False)
         stats["sim_steps"] += T
         stats["fault_strategy_" + k] = stats.get("fault_strategy_" + k, 0) + 1
         got = dr.full_np((t, arr))
